@@ -2,7 +2,7 @@
     Model: FV.Sched.  Only statements here; proofs in FVP.Sched_proofs. *)
 From Coq Require Import List ZArith Bool.
 From FV Require Import Base Sched SchedSparse C04Mix.   (* C04Mix: the correspondence interface of this property *)
-From FVP Require Import Adapters_proofs Sched_proofs Confluence_proofs Termination_proofs ConnectPhase_proofs Ring_proofs.
+From FVP Require Import Adapters_proofs Sched_proofs Confluence_proofs Termination_proofs ConnectPhase_proofs Ring_proofs Potential_proofs.
 Import ListNotations.
 Open Scope Z_scope.
 
@@ -128,6 +128,43 @@ Proof.
   exact (C04_delay_sufficient cs phi rank endt fuel o st acc W S H).
 Qed.
 
+(** ... and for ANY coupling graph, in the words of the property: "every cycle carries enough delay".  [delay_graph cs]
+    has an edge consumer -> source of weight  largest step of the consumer - delay of the link  for every link that is
+    not cut by a DelayToPush ([links_ok]: such a link carries pass-through adapters, buffers and non-negative fixed
+    delays only).  If no closed walk of that graph has positive weight - on every cycle the delays sum to at least the
+    sum of the largest steps, wherever they sit and however they are split - and the pull-based components do not feed
+    each other in a circle ([rank]), no run reports a circular coupling.  The potential that [C04_delay_sufficient]
+    asks for is constructed (minus the heaviest walk leaving a component; walks of n or more links repeat a component,
+    and cutting the closed part out loses nothing): Potential_proofs.v, no graph theory assumed. *)
+Theorem C04_cycles_covered_run :
+  forall cs rank endt fuel o st acc,
+    wf cs -> links_ok cs ->
+    (forall u c, c <> [] -> walk (delay_graph cs) u c -> endn u c = u -> wt c <= 0) ->
+    (forall c k inp, nth_error (c_inputs (getc cs c)) k = Some inp ->
+       is_time cs c = false -> is_time cs (fst (i_src inp)) = false ->
+       cut_by_nodep (i_chain inp) = true \/ (rank (fst (i_src inp)) < rank c)%nat) ->
+    run fuel cs endt = (o, st, acc) -> o <> OCirc.
+Proof.
+  intros cs rank endt fuel o st acc W LO NP RK H.
+  destruct (cycles_covered_give_potential cs rank LO NP RK) as [phi S].
+  exact (C04_delay_sufficient cs phi rank endt fuel o st acc W S H).
+Qed.
+
+(** The two formulations are equivalent: a feasible potential exists exactly when no cycle gains weight. *)
+Theorem C04_potential_iff_cycles_covered :
+  forall cs rank,
+    links_ok cs ->
+    (forall c k inp, nth_error (c_inputs (getc cs c)) k = Some inp ->
+       is_time cs c = false -> is_time cs (fst (i_src inp)) = false ->
+       cut_by_nodep (i_chain inp) = true \/ (rank (fst (i_src inp)) < rank c)%nat) ->
+    ((exists phi, sufficient cs phi rank) <->
+     (forall u c, c <> [] -> walk (delay_graph cs) u c -> endn u c = u -> wt c <= 0)).
+Proof.
+  intros cs rank LO RK. split.
+  - intros [phi S]. exact (potential_gives_cycles_covered cs phi rank S).
+  - intros NP. exact (cycles_covered_give_potential cs rank LO NP RK).
+Qed.
+
 Definition ex_ring3 : composition :=
   [ mkC (KTime 0 [10] false) 1 [ mkIn (2, 0)%nat [AFixed 6; APass; AFixed 5] ];
     mkC (KTime 0 [1] false) 1 [ mkIn (0, 0)%nat [AFixed 3] ];
@@ -219,6 +256,24 @@ Proof.
       (split; [simpl; Lia.lia|]); (split; reflexivity).
 Qed.
 
+Example C04_cycles_covered_nonvacuous :
+  (* ex_ring3 meets the hypotheses of C04_cycles_covered_run; its delay graph is the single cycle of weight 0 *)
+  links_ok ex_ring3 /\
+  delay_graph ex_ring3 = [(0%nat, 2%nat, -1); (1%nat, 0%nat, -2); (2%nat, 1%nat, 3)] /\
+  (forall u c, c <> [] -> walk (delay_graph ex_ring3) u c -> endn u c = u -> wt c <= 0).
+Proof.
+  split; [|split; [vm_compute; reflexivity|]].
+  - intros c k inp Hk. right.
+    destruct c as [|[|[|c]]]; simpl in Hk;
+      try (destruct k as [|k]; simpl in Hk; [inversion Hk; subst; clear Hk|destruct k; discriminate]).
+    + split; [simpl; Lia.lia|]. eexists. reflexivity.
+    + split; [simpl; Lia.lia|]. eexists. reflexivity.
+    + split; [simpl; Lia.lia|]. eexists. reflexivity.
+    + destruct c; destruct k; discriminate.
+  - destruct C04_nonvacuous as [_ [S _]].
+    exact (potential_gives_cycles_covered ex_ring3 ex_phi (fun _ => O) S).
+Qed.
+
 Print Assumptions C04_outcome_closed.
 Print Assumptions C04_delay_sufficient.
 Print Assumptions C04_delay_sufficient_step.
@@ -229,3 +284,5 @@ Print Assumptions C04_cycle_reported.
 Print Assumptions C04_connect_cycle_reported.
 Print Assumptions C04_connect_no_false_report.
 Print Assumptions C04_ring_total_delay_suffices.
+Print Assumptions C04_cycles_covered_run.
+Print Assumptions C04_potential_iff_cycles_covered.
